@@ -338,6 +338,12 @@ def check(ctx):
     ctx.rule("R3", "defaults are evaluated for the instance's own dimension", floor=4)
     lcfg = cfg_of(load)
     execs = [n for n in ast.walk(load.node) if isinstance(n, ast.Call) and isinstance(n.func, ast.Name) and n.func.id == "exec"]
+    # the same binding spelled as an item assignment into globals() (kept in a local or not)
+    gl_names = {t.id for t, v, s_, k in iter_stores(load.node) if isinstance(t, ast.Name) and isinstance(v, ast.Call) and isinstance(v.func, ast.Name) and v.func.id == "globals"}
+    for t, v, s_, k in iter_stores(load.node):
+        if isinstance(t, ast.Subscript) and k == "assign" and ((isinstance(t.value, ast.Name) and t.value.id in gl_names) or (isinstance(t.value, ast.Call) and isinstance(t.value.func, ast.Name) and t.value.func.id == "globals")):
+            if not any(isinstance(a, ast.If) for a in prog.ancestors(s_)):
+                execs.append(s_)
     evals = [n for n in ast.walk(load.node) if isinstance(n, ast.Call) and isinstance(n.func, ast.Name) and n.func.id == "eval"]
     if not execs or not evals:
         ctx.fail(load, load.node, "the loader no longer binds the evaluation parameters before evaluating the option values", construct="<missing exec/eval>")
